@@ -41,10 +41,11 @@ type Bounds struct {
 	Free    int // CSwitch + CSelect + CPartner
 	Map     int // CMap
 	Fault   int // CFault
+	Total   int // all classes together; 0 = no extra limit
 }
 
 func (b Bounds) String() string {
-	return fmt.Sprintf("preempt<=%d free<=%d map<=%d fault<=%d", b.Preempt, b.Free, b.Map, b.Fault)
+	return fmt.Sprintf("preempt<=%d free<=%d map<=%d fault<=%d total<=%d", b.Preempt, b.Free, b.Map, b.Fault, b.Total)
 }
 
 type cost [4]int
@@ -69,7 +70,7 @@ func (b Bounds) allows(c cost) bool {
 			return false
 		}
 	}
-	return true
+	return b.Total <= 0 || c.total() <= b.Total
 }
 
 func (c cost) total() int { return c[0] + c[1] + c[2] + c[3] }
@@ -85,6 +86,23 @@ type Ctx struct {
 	// beyond the prefix (global order policies; not explored further).
 	MapPolicy func(n int) []int
 	NoMap     bool // do not treat map order as a choice at all
+
+	visit  func(sig uint64, used cost) bool // state cache of the explorer (nil: none)
+	used   cost
+	Pruned bool
+}
+
+// Visit implements vsched.Controller: consult the explorer's state cache for states
+// reached beyond the replayed prefix.
+func (c *Ctx) Visit(sig uint64) bool {
+	if c.visit == nil || len(c.Trace) < len(c.prefix) {
+		return true
+	}
+	if !c.visit(sig, c.used) {
+		c.Pruned = true
+		return false
+	}
+	return true
 }
 
 func (c *Ctx) choose(kind ChoiceKind, n int, label func() string) int {
@@ -98,6 +116,9 @@ func (c *Ctx) choose(kind ChoiceKind, n int, label func() string) int {
 		}
 	}
 	ch := Choice{Kind: kind, N: n, Pick: pick}
+	if pick != 0 {
+		c.used[classOf(kind)]++
+	}
 	if c.Labels && label != nil {
 		ch.Label = label()
 	}
@@ -136,6 +157,9 @@ func (c *Ctx) Order(site string, keys []string) []int {
 	}
 	alts := permAlternatives(n)
 	pick := c.choose(CMap, alts, func() string { return site + " [" + strings.Join(keys, ",") + "]" })
+	if pick != 0 {
+		vsched.Fold(uint64(len(c.Trace)), uint64(pick))
+	}
 	return permOf(n, pick)
 }
 
@@ -229,6 +253,8 @@ type ExploreStats struct {
 	Capped         bool
 	PerKind        [nKinds]int // choice points seen per kind
 	Diverged       []string
+	Pruned         int // executions cut off at an already explored state
+	CachedStates   int
 }
 
 func (s *ExploreStats) Add(o ExploreStats) {
@@ -242,6 +268,8 @@ func (s *ExploreStats) Add(o ExploreStats) {
 		s.PerKind[i] += o.PerKind[i]
 	}
 	s.Capped = s.Capped || o.Capped
+	s.Pruned += o.Pruned
+	s.CachedStates += o.CachedStates
 	s.Diverged = append(s.Diverged, o.Diverged...)
 }
 
@@ -254,6 +282,10 @@ type Explorer struct {
 	Labels   bool
 	NoMap    bool
 	Policies bool // additionally run the two global map-order policies
+	// Cache enables happens-before state caching: an execution that reaches a global
+	// state (identified by the vsched signature) which was already reached with at
+	// least the same remaining budgets is cut off there.
+	Cache bool
 }
 
 // Explore calls run once per execution; visit receives the full pick sequence.
@@ -264,6 +296,34 @@ func (x *Explorer) Explore(run func(c *Ctx), visit func(c *Ctx) bool) ExploreSta
 	st.BoundCompleted = -1
 	st.States = 1
 	stop := false
+	var cache map[uint64][][5]int
+	var visitFn func(sig uint64, used cost) bool
+	if x.Cache {
+		cache = map[uint64][][5]int{}
+		lim := [4]int{x.Bounds.Preempt, x.Bounds.Free, x.Bounds.Map, x.Bounds.Fault}
+		visitFn = func(sig uint64, used cost) bool {
+			// remaining budget per class and in total (unbounded ones never constrain)
+			var rem [5]int
+			for i := 0; i < 4; i++ {
+				if lim[i] < 0 {
+					rem[i] = 1 << 30
+				} else {
+					rem[i] = lim[i] - used[i]
+				}
+			}
+			rem[4] = 1 << 30
+			if x.Bounds.Total > 0 {
+				rem[4] = x.Bounds.Total - used.total()
+			}
+			for _, old := range cache[sig] {
+				if old[0] >= rem[0] && old[1] >= rem[1] && old[2] >= rem[2] && old[3] >= rem[3] && old[4] >= rem[4] {
+					return false
+				}
+			}
+			cache[sig] = append(cache[sig], rem)
+			return true
+		}
+	}
 	for lvl := 0; lvl < len(levels) && !stop; lvl++ {
 		for len(levels[lvl]) > 0 && !stop {
 			q := levels[lvl]
@@ -274,9 +334,12 @@ func (x *Explorer) Explore(run func(c *Ctx), visit func(c *Ctx) bool) ExploreSta
 				stop = true
 				break
 			}
-			c := &Ctx{prefix: prefix, Labels: x.Labels, NoMap: x.NoMap}
+			c := &Ctx{prefix: prefix, Labels: x.Labels, NoMap: x.NoMap, visit: visitFn}
 			run(c)
 			st.Executions++
+			if c.Pruned {
+				st.Pruned++
+			}
 			if c.Diverged != "" {
 				st.Diverged = append(st.Diverged, c.Diverged)
 			}
@@ -324,6 +387,7 @@ func (x *Explorer) Explore(run func(c *Ctx), visit func(c *Ctx) bool) ExploreSta
 			st.BoundCompleted = lvl
 		}
 	}
+	st.CachedStates = len(cache)
 	if !stop && x.Policies && !x.NoMap {
 		for _, pol := range []func(int) []int{ReversePolicy, RotatePolicy} {
 			c := &Ctx{Labels: x.Labels, MapPolicy: pol}
